@@ -49,6 +49,123 @@ exists d, P; exists 0%N, (0 : 'cV[F]_0), (0 : 'M[F]_(n, 0)); split=> //.
 - by split=> //; [rewrite trmx0 mul0mx | apply/matrixP => -[]].
 Qed.
 
+(* ---- the eigen contract's decomposition exists whenever p <= rank W (deflation by Householder
+        reflections: one positive eigenpair at a time; no sorting of the spectrum is needed) ---------- *)
+Lemma spectral_psd n (W : 'M[F]_n) :
+  sym W -> psd W -> exists P : 'M[F]_n, exists d : 'cV[F]_n,
+    [/\ P^T *m P = 1%:M, W = P *m diagv d *m P^T & forall i, 0 <= d i 0].
+Proof.
+move=> sW pW; have [P [d [PP eW]]] := spectral sW.
+by exists P, d; split=> // i; have := pW (col i P); rewrite qfE eW qf_spectral.
+Qed.
+
+Lemma rank_orth_congr n (H W : 'M[F]_n) : H *m H = 1%:M -> \rank (H *m W *m H) = \rank W.
+Proof.
+move=> HH; have [uH _] := mulmx1_unit HH.
+rewrite mxrankMfree ?row_free_unit // -mxrank_tr trmx_mul mxrankMfree ?row_free_unit ?unitmx_tr //.
+by rewrite mxrank_tr.
+Qed.
+
+Lemma diagv_delta n (d : 'cV[F]_n) i : diagv d *m delta_mx i 0 = d i 0 *: (delta_mx i 0 : 'cV[F]_n).
+Proof.
+apply/matrixP => a b; rewrite !mxE ord1 (bigD1 i) //= big1 => [|k ki].
+  by rewrite !mxE !eqxx addr0 /= [b]ord1 eqxx andbT; case: eqP => [->|_]; rewrite ?mulr1 ?mul0r ?mulr0.
+by rewrite !mxE (negbTE ki) /= mulr0.
+Qed.
+
+Lemma psd_dr n (B : 'M[F]_(1 + n)) : psd B -> psd (drsubmx B).
+Proof.
+move=> pB v; have := pB (col_mx 0 v).
+rewrite -{1}[B]submxK tr_col_mx (@mul_row_block _ 1 1 n 1 n) (@mul_row_col _ 1 1 n) trmx0 !mul0mx !add0r mulmx0 add0r.
+by [].
+Qed.
+
+Lemma eig_top_exists n p (W : 'M[F]_n) :
+  sym W -> psd W -> (p <= \rank W)%N -> exists s : 'cV[F]_p, exists V : 'M[F]_(n, p), eig_top_of W s V.
+Proof.
+elim: p n W => [|p IH] n W sW pW.
+  move=> _; have [P [d [PP eW d0]]] := spectral_psd sW pW.
+  exists 0, 0; exists n, d, P; split=> //; first by rewrite addn0.
+  - by rewrite !mul0mx addr0.
+  - by case.
+  - by split; [apply/matrixP => -[] | apply/matrixP => i [] | ].
+case: n W sW pW => [|n] W sW pW; first by rewrite [W]flatmx0 mxrank0.
+change ('M[F]_(1 + n)) in W => rk.
+have [P [d [PP eW d0]]] := spectral_psd sW pW.
+have [i di] : exists i, 0 < d i 0.
+  case: (pickP (fun i => 0 < d i 0)) => [i hi|no]; first by exists i.
+  have dz : d = 0.
+    by apply/matrixP => i j; rewrite ord1 mxE; apply/eqP; rewrite eq_le d0 andbT leNgt no.
+  have W0 : W = 0.
+    rewrite eW dz; suff -> : diagv (0 : 'cV[F]_(1 + n)) = 0 by rewrite mulmx0 mul0mx.
+    by apply/matrixP => a b; rewrite !mxE if_same.
+  by move: rk; rewrite W0 mxrank0.
+pose lam := d i 0; pose x : 'cV[F]_(1 + n) := col i P.
+have x1 : (x^T *m x) 0 0 = 1.
+  have := congr1 (fun M : 'M[F]_(1 + n) => M i i) PP; rewrite [RHS]mxE eqxx /= => h; rewrite -[RHS]h.
+  by rewrite /x !mxE; apply: eq_bigr => k _; rewrite !mxE.
+have Wx : W *m x = lam *: x.
+  by rewrite /x eW colE -!mulmxA (mulmxA P^T) PP mul1mx diagv_delta -scalemxAr.
+have [H [sH HH He]] := householder x1.
+change ('M[F]_(1 + n)) in H.
+pose e : 'cV[F]_(1 + n) := delta_mx 0 0.
+have Hx : H *m x = e by rewrite -He mulmxA HH mul1mx.
+have [B eB0] : {B : 'M[F]_(1 + n) | B = H *m W *m H} by eexists.
+have sB : sym B by rewrite /sym eB0 !trmx_mul sH sW mulmxA.
+have pB : psd B.
+  by rewrite eB0 -{1}sH; apply: psd_congr.
+have Be : B *m e = lam *: e by rewrite eB0 -!mulmxA He Wx -scalemxAr Hx.
+have [sUL sDR eUR] := sym_block sB.
+have dl0 : dlsubmx B = 0.
+  apply/matrixP => a b; rewrite !mxE ord1.
+  have := congr1 (fun M : 'cV[F]_(1 + n) => M (rshift 1 a) 0) Be.
+  rewrite -colE !mxE (_ : lshift n 0 = 0 :> 'I_(1 + n)); last exact: val_inj.
+  by move=> ->; rewrite (_ : (rshift 1 a == 0 :> 'I_(1 + n)) = false) ?mulr0.
+have ul : ulsubmx B = lam%:M.
+  rewrite [LHS]mx11_scalar !mxE; congr (_%:M).
+  have := congr1 (fun M : 'cV[F]_(1 + n) => M 0 0) Be.
+  rewrite -colE !mxE eqxx mulr1 => <-; congr (B _ _); exact: val_inj.
+have Bblk : B = block_mx lam%:M 0 0 (drsubmx B).
+  by rewrite -{1}[B]submxK ul eUR dl0 trmx0.
+have rkB : \rank W = (1 + \rank (drsubmx B))%N.
+  rewrite -(rank_orth_congr W HH) -eB0 [in LHS]Bblk rank_diag_block_mx; congr (_ + _)%N.
+  by apply: mxrank_unit; rewrite unitmxE det_scalar1 unitfE gt_eqF.
+have rk' : (p <= \rank (drsubmx B))%N by move: rk; rewrite rkB add1n ltnS.
+have [s' [V' [q' [sd' [Vd' [qp eW' sd0 s0 [VV VdV VdVd]]]]]]] := IH n (drsubmx B) sDR (psd_dr pB) rk'.
+pose s : 'cV[F]_(1 + p) := col_mx (lam%:M : 'M_1) s'.
+pose V : 'M[F]_(1 + n, 1 + p) := H *m block_mx (1%:M : 'M[F]_1) 0 0 V'.
+pose Vd : 'M[F]_(1 + n, q') := H *m col_mx (0 : 'M[F]_(1, q')) Vd'.
+exists s, V; exists q', sd', Vd; split.
+- by rewrite addnS qp.
+- have -> : W = H *m B *m H by rewrite eB0 !mulmxA HH mul1mx -mulmxA HH mulmx1.
+  have eT1 : col_mx (0 : 'M[F]_(1, q')) Vd' *m diagv sd' *m (col_mx (0 : 'M[F]_(1, q')) Vd')^T
+             = block_mx 0 0 0 (Vd' *m diagv sd' *m Vd'^T).
+    by rewrite tr_col_mx trmx0 mul_col_mx mul0mx (@mul_col_row _ 1 n q' 1 n) !mul0mx !mulmx0.
+  have eT2 : block_mx (1%:M : 'M[F]_1) 0 0 V' *m diagv s *m (block_mx (1%:M : 'M[F]_1) 0 0 V')^T
+             = block_mx lam%:M 0 0 (V' *m diagv s' *m V'^T).
+    rewrite /s diagv_col_mx (@tr_block_mx _ 1 n 1 p) (@mulmx_block _ 1 n 1 p 1 p) !trmx0 trmx1.
+    rewrite (@mulmx_block _ 1 n 1 p 1 n) !mul1mx !mulmx1 !mul0mx !mulmx0 !addr0 !add0r.
+    by rewrite mul0mx.
+  rewrite /V /Vd !trmx_mul sH.
+  have -> : H *m col_mx 0 Vd' *m diagv sd' *m ((col_mx 0 Vd')^T *m H)
+            + H *m block_mx 1%:M 0 0 V' *m diagv s *m ((block_mx 1%:M 0 0 V')^T *m H)
+          = H *m (col_mx 0 Vd' *m diagv sd' *m (col_mx 0 Vd')^T
+                  + block_mx 1%:M 0 0 V' *m diagv s *m (block_mx 1%:M 0 0 V')^T) *m H.
+    by rewrite mulmxDr mulmxDl !mulmxA.
+  congr (_ *m _ *m _); rewrite eT1 eT2 (@add_block_mx _ 1 n 1 n) !add0r [LHS]Bblk.
+  by congr (block_mx _ _ _ _); rewrite {1}eW'.
+- exact: sd0.
+- move=> k; rewrite /s; case: (@split_ordP 1 p k) => k' ->.
+    by rewrite (@col_mxEu _ 1 p 1) ord1 mxE eqxx mulr1n.
+  by rewrite (@col_mxEd _ 1 p 1).
+- split.
+  + rewrite /V trmx_mul sH -mulmxA (mulmxA H) HH mul1mx (@tr_block_mx _ 1 n 1 p) (@mulmx_block _ 1 p 1 n 1 p).
+    by rewrite !trmx0 trmx1 !mulmx0 !mul0mx mul1mx !addr0 add0r VV -scalar_mx_block.
+  + rewrite /V /Vd trmx_mul sH -mulmxA (mulmxA H) HH mul1mx tr_col_mx trmx0 (@mul_row_block _ q' 1 n 1 p).
+    by rewrite !mul0mx !mulmx0 !add0r VdV row_mx0.
+  + by rewrite /Vd trmx_mul sH -mulmxA (mulmxA H) HH mul1mx tr_col_mx trmx0 (@mul_row_col _ q' 1 n) mul0mx add0r.
+Qed.
+
 (* ---- the reduced-QR contract is satisfiable ------------------------------------------------ *)
 Lemma qr_exists_b n m k (C : 'M[F]_(n, m)) : k = minn n m ->
   exists QR : 'M[F]_(n, k) * 'M[F]_(k, m), (QR.1 *m QR.2 == C) && (QR.1^T *m QR.1 == 1%:M).
